@@ -458,3 +458,109 @@ func selName(e ast.Expr) (ast.Expr, string, bool) {
 	}
 	return se.X, se.Sel.Name, true
 }
+
+// backingFromReceiver reports whether the slice, map or pointer denoted by e
+// may share its backing storage with state reachable from the method's
+// receiver (storage that outlives the call and can be reused by the next
+// one).  It follows local definitions, append (first argument only: the
+// appended elements are copied), slicing, conversions and composite
+// literals; calls return fresh storage unless they are append.
+func backingFromReceiver(fn *core.Func, e ast.Expr) (string, bool) {
+	if fn.Decl.Recv == nil || len(fn.Decl.Recv.List) != 1 || len(fn.Decl.Recv.List[0].Names) != 1 {
+		return "", false
+	}
+	info := fn.Info()
+	recv := info.Defs[fn.Decl.Recv.List[0].Names[0]]
+	seen := map[types.Object]bool{}
+	var walk func(e ast.Expr, depth int) (string, bool)
+	walk = func(e ast.Expr, depth int) (string, bool) {
+		if depth > 8 || e == nil {
+			return "", false
+		}
+		e = ast.Unparen(e)
+		if t := info.TypeOf(e); t != nil {
+			switch t.Underlying().(type) {
+			case *types.Slice, *types.Map, *types.Pointer, *types.Interface:
+			default:
+				if _, isStruct := t.Underlying().(*types.Struct); !isStruct {
+					return "", false
+				}
+			}
+		}
+		switch x := e.(type) {
+		case *ast.Ident:
+			obj := info.ObjectOf(x)
+			if obj == nil {
+				return "", false
+			}
+			if obj == recv {
+				return x.Name, true
+			}
+			if seen[obj] {
+				return "", false
+			}
+			seen[obj] = true
+			for _, d := range core.AssignsTo(info, fn.Decl, obj) {
+				switch s := d.(type) {
+				case *ast.AssignStmt:
+					if len(s.Lhs) == len(s.Rhs) {
+						for i, l := range s.Lhs {
+							if core.ObjOf(info, l) == obj {
+								if p, ok := walk(s.Rhs[i], depth+1); ok {
+									return x.Name + " <- " + p, true
+								}
+							}
+						}
+					}
+				case *ast.ValueSpec:
+					for i, nm := range s.Names {
+						if info.ObjectOf(nm) == obj && i < len(s.Values) {
+							if p, ok := walk(s.Values[i], depth+1); ok {
+								return x.Name + " <- " + p, true
+							}
+						}
+					}
+				}
+			}
+			return "", false
+		case *ast.SelectorExpr:
+			if p, ok := walk(x.X, depth+1); ok {
+				return p + "." + x.Sel.Name, true
+			}
+			// selector on the receiver itself (x.X is the receiver identifier of pointer type)
+			if id, ok := ast.Unparen(x.X).(*ast.Ident); ok && info.ObjectOf(id) == recv {
+				return id.Name + "." + x.Sel.Name, true
+			}
+			return "", false
+		case *ast.SliceExpr:
+			return walk(x.X, depth+1)
+		case *ast.StarExpr:
+			return walk(x.X, depth+1)
+		case *ast.UnaryExpr:
+			if x.Op == token.AND {
+				return walk(x.X, depth+1)
+			}
+		case *ast.CompositeLit:
+			for _, el := range x.Elts {
+				v := el
+				if kv, ok := el.(*ast.KeyValueExpr); ok {
+					v = kv.Value
+				}
+				if p, ok := walk(v, depth+1); ok {
+					return p, true
+				}
+			}
+		case *ast.CallExpr:
+			if tv, ok := info.Types[x.Fun]; ok && tv.IsType() && len(x.Args) == 1 {
+				return walk(x.Args[0], depth+1)
+			}
+			if id, ok := x.Fun.(*ast.Ident); ok && id.Name == "append" && len(x.Args) >= 1 {
+				if _, isB := info.ObjectOf(id).(*types.Builtin); isB {
+					return walk(x.Args[0], depth+1)
+				}
+			}
+		}
+		return "", false
+	}
+	return walk(e, 0)
+}
